@@ -130,7 +130,20 @@ class Run:
     def c_proofs(self, tasks, timeout_ms=None, consts=None, generators=None):
         """tasks: [(relpath, fn)].  generators: {(relpath, fn): callable(rng, tier) -> list of arg lists} for the refuter."""
         timeout_ms = timeout_ms or (10000 if self.tier == 'quick' else 60000)
-        R = cproof.prove(tasks, timeout_ms=timeout_ms, consts=consts)
+        # bounded differential runs first (they are also the refuter for failed obligations): a function whose real code
+        # already violates its contract on a concrete input gets short solver budgets (the witness exists)
+        generators = generators or {}
+        for (relpath, fn) in tasks:
+            g = generators.get((relpath, fn))
+            if g is None:
+                continue
+            try:
+                cases = g(self.rng, self.tier)
+                self.run_kernel_cases(relpath, fn, cases, consts)
+            except Exception:
+                self.broken.append('refuter for %s crashed: %s' % (fn, traceback.format_exc()[-1500:]))
+        short = {(rel, fn) for (rel, fn), fails in self.refuter_hits.items() if fails}
+        R = cproof.prove(tasks, timeout_ms=timeout_ms, consts=consts, short=short)
         self.solver_time += R['solve_s']
         for f in R['failed']:
             msg = '%s/%s: %s: %s' % (f['file'], f['fn'], f['error'], f['detail'][-1500:])
@@ -149,17 +162,6 @@ class Run:
             # unreachable (loop left only by return); those are reported in the evidence only.
             if c['status'] == 'unsat' and (c['what'] in ('function exit', 'requires satisfiable')):
                 self.broken.append('vacuity guard: %s (%s) is unreachable / contradictory' % (c['id'], c['what']))
-        # bounded differential runs (also the refuter for failed obligations)
-        generators = generators or {}
-        for (relpath, fn) in tasks:
-            g = generators.get((relpath, fn))
-            if g is None:
-                continue
-            try:
-                cases = g(self.rng, self.tier)
-                self.run_kernel_cases(relpath, fn, cases, consts)
-            except Exception:
-                self.broken.append('refuter for %s crashed: %s' % (fn, traceback.format_exc()[-1500:]))
         # verdict per failed obligation
         groups = collections.OrderedDict()
         for v in R['vcs']:
